@@ -357,7 +357,19 @@ func CompileList(list List) (f Object) {
 		switch ta := list[0].(type) {
 		case Symbol:
 			name := strings.ToLower(string(ta))
-			if fi := CurrentPackage.funcs[name]; fi != nil {
+			if i := strings.IndexByte(name, ':'); 0 < i {
+				// A package qualified name is not looked up in the
+				// functions of the current package. If the function is not
+				// known yet the lookup is left to the evaluation.
+				var fi *FuncInfo
+				if FindPackage(name[:i]) != nil {
+					fi = FindFunc(name)
+				}
+				if fi == nil {
+					return list
+				}
+				f = fi.Create(list[1:])
+			} else if fi := CurrentPackage.funcs[name]; fi != nil {
 				f = fi.Create(list[1:])
 			} else {
 				lc := Lambda{
